@@ -265,14 +265,14 @@ def shrink(run, ops, kind, seed, budget=400):
     return head + body, True
 
 
-def stage_corr(pid, cfg, tier, seed):
+def stage_corr(pid, cfg, tier, seed, corpus=True):
     res = dict(evaluations=0, lines=0, distinct=set(), dist={}, fails=[], samples=[], runs=[], crashed=[], known={})
     nontriv = set(cfg["nontrivial"])
     for run in cfg["runs"]:
         sizes = run[tier]
         # corpus first
         cdir = os.path.join(CORPUS, pid)
-        corpus_files = sorted(os.listdir(cdir)) if os.path.isdir(cdir) else []
+        corpus_files = sorted(os.listdir(cdir)) if (corpus and os.path.isdir(cdir)) else []
         jobs = [(["--replay", os.path.join(cdir, f), "--seed", str(seed)], f"corpus/{f}") for f in corpus_files
                 if f.endswith("." + run["harness"])]
         args = ["--seed", str(seed)]
@@ -307,6 +307,8 @@ def stage_corr(pid, cfg, tier, seed):
             kept = 0
             if not any(l.startswith("cfg ") for l in tl[:50]):
                 fails.sort(key=len)          # single-line cases: report the smallest ones
+            # failures of the property itself before model disagreements: a concrete failing input is what a report needs
+            fails.sort(key=lambda f: 0 if f.startswith("SPECFAIL") else 1)
             for f in fails:
                 k = match_known(pid, f)
                 if k:
@@ -406,6 +408,20 @@ def main():
 
     found_input = False
     if corr:
+        unknown = [f for f in corr["fails"] if not match_known(pid, f["text"])]
+        if unknown and not any(f["kind"] == "SPECFAIL" for f in unknown) and not os.environ.get("VERIF_NO_SEARCH"):
+            # the model and the code disagree but no answer seen so far breaks the property itself:
+            # search further seeds (same generators) for an input on which it does
+            t0 = time.time()
+            for extra_seed in range(seed + 7001, seed + 7007):
+                if time.time() - t0 > 240:
+                    break
+                more = stage_corr(pid, cfg, "quick", extra_seed, corpus=False)
+                sf = [f for f in more["fails"] if f["kind"] == "SPECFAIL" and not match_known(pid, f["text"])]
+                notes.append(f"search for a failing input: seed {extra_seed}, {more['evaluations']} cases, {len(sf)} property failures")
+                if sf:
+                    corr["fails"] = sf[:3] + corr["fails"]
+                    break
         for c in corr["crashed"]:
             path = write_replay(pid, seed, "crash", json.dumps(c, indent=1))
             violations.append((path, ""))
